@@ -115,7 +115,7 @@ def observe_server(c):
     """c = (default_tmo, max_tmo, retries, max_bs, wrap); wrap may be None/int/bool -> the same five as they reach
     the transfer"""
     import fake_net
-    if fake_net.private_class() is None:
+    if fake_net.private_class() is None or not hasattr(S.TftpServer, "_handle_read"):
         return observe_public(c)
     seen = []
 
